@@ -284,6 +284,17 @@ def judge_worker(env, cell, r):
     m = cell["master"]
     out = []
     kinds = [e[0] for e in r["events"]]
+    if cell.get("oracle_only"):
+        # an unprivileged master: that the switch fails (loudly, the worker does not boot) is the expected outcome; what must not
+        # happen is application code running under anything but the configured identity
+        for e in r["events"]:
+            if e[0] == 3:
+                out += judge_creds(db, m, cell["user"], cell["group"], cell["ig"], e[1],
+                                   "%s worker of a master that is not root (uid %d, groups %r), application code"
+                                   % (cell["worker_class"], m["uids"][1], m["groups"]))
+        if 2 in kinds and 3 in kinds:
+            out.append(("application code ran although set_owner_process raised", None))
+        return out[:3]
     if 2 in kinds:
         e = [x for x in r["events"] if x[0] == 2][0]
         name = {v: k for k, v in L.EXC_CODES.items()}.get(e[1], "an exception")
@@ -319,6 +330,14 @@ def worker_cells(env, classes, rng, extra):
         for i, (u, g, ig) in enumerate(WORKER_CONFIGS):
             cells.append({"kind": "worker", "worker_class": wc, "fake": fake, "master": master([0, 4, 27] if i % 2 else []),
                           "user": u, "group": g, "ig": ig, "umask": [0, 0o22, 0o77][i % 3], "reload": i == 1, "tmpdir": None})
+    # masters that are NOT root and ask for a group they merely belong to (the heartbeat file can be handed to it, so nothing
+    # else stops the worker): set_owner_process must be attempted - and fail loudly - before any application code runs.
+    # Oracle only (the model's worker path is stated for the kernel rules of a privileged master's chown).
+    for wc in ("sync",):           # (the other worker classes' modules cannot be imported by an unprivileged child on this machine)
+        for groups, grp in (([4242], ["int", 4242]), ([1000, 33], ["int", 33])):
+            cells.append({"kind": "worker", "worker_class": wc, "fake": False, "oracle_only": True,
+                          "master": master(groups, uids=(1000, 1000, 1000), gids=(1000, 1000, 1000)),
+                          "user": None, "group": grp, "ig": False, "umask": 0o22, "reload": False, "tmpdir": None})
     db = env["db"][False]
     unames = [n for _, n in db.pw]
     gnames = [n for n, _, _ in db.gr]
@@ -775,7 +794,8 @@ def run_cells(ctx, env, cells, report=True):
             ctx.broken.append("harness: a %s cell could not be run: %s (%r)" % (cell["kind"], str(e)[-600:], describe(cell)))
             ctx.log("CELL FAILED TO RUN:", describe(cell), str(e)[-600:])
             continue
-        cases.append((model(env, cell), obs(cell, r), describe(cell)))
+        if not cell.get("oracle_only"):
+            cases.append((model(env, cell), obs(cell, r), describe(cell)))
         verdicts = judge(env, cell, r)
         ctx.hist(cell["kind"], r.get("res", "ok") if cell["kind"] == "identity" else cell.get("worker_class", "unix"))
         ig = bool(cell.get("ig"))
